@@ -48,7 +48,7 @@ from psyclone.core import (AccessType, SymbolicMaths,
 from psyclone.errors import InternalError, LazyString
 from psyclone.psyir.backend.sympy_writer import SymPyWriter
 from psyclone.psyir.backend.visitor import VisitorError
-from psyclone.psyir.nodes import Loop
+from psyclone.psyir.nodes import BinaryOperation, Loop
 
 
 # pylint: disable=too-many-lines
@@ -278,6 +278,15 @@ class DependencyTools():
 
     # -------------------------------------------------------------------------
     @staticmethod
+    def _has_division(*expressions):
+        ''':returns: whether any of the PSyIR expressions contains a division.
+        :rtype: bool'''
+        return any(oper.operator == BinaryOperation.Operator.DIV
+                   for expr in expressions
+                   for oper in expr.walk(BinaryOperation))
+
+    # -------------------------------------------------------------------------
+    @staticmethod
     def _independent_0_var(index_exp1, index_exp2):
         '''Checks if the two index expressions, that are not dependent on any
         loop variable, are independent or not. E.g. `a(3)` and `a(5)`
@@ -292,6 +301,11 @@ class DependencyTools():
 
         '''
         sym_maths = SymbolicMaths.get()
+
+        # SymPy treats '/' as exact division, but a subscript is an integer
+        # expression: Fortran truncates, so nothing can be concluded.
+        if DependencyTools._has_division(index_exp1, index_exp2):
+            return False
 
         # If the indices can be shown to be never equal, the accesses
         # to the given subscript are always independent.
@@ -338,6 +352,11 @@ class DependencyTools():
 
         '''
         # pylint: disable=too-many-return-statements
+        # SymPy treats '/' as exact division, but a subscript is an integer
+        # expression: Fortran truncates, so no distance can be computed.
+        if DependencyTools._has_division(index_read, index_written):
+            return None
+
         sympy_writer = SymPyWriter()
         try:
             sympy_expressions = sympy_writer([index_read, index_written])
